@@ -465,7 +465,7 @@ func (g *c08xGen) leaf(literalOK bool) dsl.Expression {
 
 // expr: leaf | -e | e as T | e op e, nesting depth <= d.  The operand of a unary minus is never a literal: the
 // expression parser folds `-literal` into the literal.  From depth 3 on (depth 2 in the literal family) only
-// one operand of a binary operator is deep (the other has depth <= 1), which keeps the number of trees in the ten thousands.
+// one operand of a binary operator is deep (the other is two levels shallower), which keeps the number of trees in the ten thousands.
 func (g *c08xGen) expr(d int, literalOK bool) dsl.Expression {
 	if d <= 0 {
 		return g.leaf(literalOK)
@@ -482,9 +482,9 @@ func (g *c08xGen) expr(d int, literalOK bool) dsl.Expression {
 		dl, dr := d-1, d-1
 		if d >= 3 || (g.lits && d >= 2) {
 			if verifChoose(g.label("deep-side"), 2) == 0 {
-				dr = 1
+				dr = d - 2
 			} else {
-				dl = 1
+				dl = d - 2
 			}
 		}
 		l := g.expr(dl, true)
